@@ -10,8 +10,9 @@ open K
 namespace Openat2
 
 /-- `openat2::open` (one-shot) -/
-def openOnce (env : Env) (root : Fd) (path : Bytes) (rflags oflags : Nat) : M Fd := do
-  if !env.openat2 then throw .notSupported
+def openOnce (env : Env) (root : Fd) (path : Bytes) (rflags oflags : Nat) : M Fd :=
+  if !env.openat2 then throw .notSupported else
+  let oflags := if hasAll oflags O_PATH then oflags else oflags ||| O_NOCTTY
   Sys.openat2 root path oflags (RESOLVE_IN_ROOT ||| RESOLVE_NO_MAGICLINKS ||| rflags)
 
 /-- the 16-try loop of `openat2::resolve` -/
@@ -27,8 +28,8 @@ def resolveLoop (root : Fd) (path : Bytes) (oflags resolve : Nat) : Nat → M Fd
     | .error e => throw e
 
 /-- `openat2::resolve` -/
-def resolve (env : Env) (root : Fd) (path : Bytes) (rflags : Nat) (nofollow : Bool) : M Fd := do
-  if !env.openat2 then throw .notSupported
+def resolve (env : Env) (root : Fd) (path : Bytes) (rflags : Nat) (nofollow : Bool) : M Fd :=
+  if !env.openat2 then throw .notSupported else
   let oflags := if nofollow then O_PATH ||| O_NOFOLLOW else O_PATH
   resolveLoop root path oflags (RESOLVE_IN_ROOT ||| RESOLVE_NO_MAGICLINKS ||| rflags) 16
 
@@ -42,7 +43,7 @@ def probe (env : Env) (root : Fd) (rflags : Nat) (nofollow : Bool) :
     List (Bytes × Option Bytes) → Err → M (Lookup Fd)
   | [], _ => throw (.panic "partial_ancestors should include root path which must be resolvable")
   | (p, remaining) :: rest, lastErr => do
-    if Err.isSafetyViolation lastErr then throw lastErr
+    if Err.isSafetyViolation lastErr then throw lastErr else
     match ← M.try' (resolve env root p rflags nofollow) with
     | .ok h => pure (.part h (remaining.getD []) lastErr)
     | .error e => probe env root rflags nofollow rest e
@@ -74,22 +75,24 @@ def resolvePartial (env : Env) (r : Resolver) (root : Fd) (path : Bytes) (nofoll
   else Openat2.resolvePartial env root path r.rflags nofollow
 
 /-- `Resolver::open` (one-shot open) -/
-def openOnce (env : Env) (r : Resolver) (root : Fd) (path : Bytes) (flags : Nat) : M Fd := do
-  if hasAny flags (O_CREAT ||| O_EXCL) then throw .invalidArgument
-  if !r.emulated then Openat2.openOnce env root path r.rflags flags
-  else
+def openOnce (env : Env) (r : Resolver) (root : Fd) (path : Bytes) (flags : Nat) : M Fd :=
+  if hasAny flags (O_CREAT ||| O_EXCL) || hasAll flags O_TMPFILE then throw .invalidArgument
+  else if !r.emulated then Openat2.openOnce env root path r.rflags flags
+  else do
     let handle ← resolve env r root path (hasAll flags O_NOFOLLOW)
     let st ← (Sys.fstatat handle []).onErr (Sys.close handle)
     if st.isSymlink then
       if hasAll flags O_DIRECTORY then
         (Sys.close handle : Prog Unit)
         throw (.os ENOTDIR)
-      if hasAll flags O_PATH then return handle
+      else if hasAll flags O_PATH then pure handle
+      else
+        (Sys.close handle : Prog Unit)
+        throw (.os ELOOP)
+    else
+      let res ← M.try' (Procfs.reopen env handle flags)
       (Sys.close handle : Prog Unit)
-      throw (.os ELOOP)
-    let res ← M.try' (Procfs.reopen env handle flags)
-    (Sys.close handle : Prog Unit)
-    M.ofExcept res
+      M.ofExcept res
 
 end Resolver
 
@@ -155,8 +158,10 @@ fuel. -/
 def removeAll : Nat → Fd → Bytes → M Unit
   | 0, _, _ => throw (.outOfFuel "remove_all")
   | fuel + 1, dir, name => do
-    if Path.containsSlash name then throw .safetyViolation
-    if ← M.isOk (ignoreEnoent (removeInode dir name)) then return ()
+    if Path.containsSlash name then throw .safetyViolation else
+    if name = Path.dot ∨ name = Path.dotdot then throw .invalidArgument else
+    let removed ← M.isOk (ignoreEnoent (removeInode dir name))
+    if removed then pure () else
     let subdir? ← do
       match ← M.try' (Sys.openat dir name O_DIRECTORY 0) with
       | .ok fd => pure (some fd)
@@ -258,20 +263,23 @@ def mkdirLoop (perm : Nat) : Fd → List Bytes → M Fd
     if Path.containsSlash part then
       (Sys.close cur : Prog Unit)
       throw .safetyViolation
-    match ← M.try' (Sys.mkdirat cur part perm) with
+    else
+    let made ← M.try' (Sys.mkdirat cur part perm)
+    (match made with
     | .ok () => pure ()
     | .error e =>
-      if e ≠ .os EEXIST then
+      if e ≠ .os EEXIST then do
         (Sys.close cur : Prog Unit)
         throw e
+      else pure () : M Unit)
     let next ← (Sys.openat cur part (O_NOFOLLOW ||| O_DIRECTORY) 0).onErr (Sys.close cur)
     (Sys.close cur : Prog Unit)
     mkdirLoop perm next rest
 
 /-- `mkdir_all` -/
-def mkdirAll (env : Env) (root : Root) (path : Bytes) (perm : Nat) : M Fd := do
-  if clearBits perm 0o7777 ≠ 0 then throw .invalidArgument
-  if clearBits perm 0o1777 ≠ 0 then throw .invalidArgument
+def mkdirAll (env : Env) (root : Root) (path : Bytes) (perm : Nat) : M Fd :=
+  if clearBits perm 0o7777 ≠ 0 then throw .invalidArgument else
+  if clearBits perm 0o1777 ≠ 0 then throw .invalidArgument else do
   let (handle, remaining) ← do
     match ← Resolver.resolvePartial env root.resolver root.fd path false with
     | .complete h => pure (h, (none : Option Bytes))
@@ -283,12 +291,14 @@ def mkdirAll (env : Env) (root : Root) (path : Bytes) (perm : Nat) : M Fd := do
   let cur ← (Procfs.reopen env handle O_DIRECTORY).onErr
     -- the error message freezes the handle (`FrozenFd::from(handle)`)
     (Prog.bind (Sys.freeze Sys.diagFuel handle) fun _ => Sys.close handle)
-  let parts := (match remaining with
+  let comps : List Bytes := match remaining with
     | none => []
-    | some rem => Path.rawComponents rem).filter fun p => !p.isEmpty && p != Path.dot
+    | some rem => Path.rawComponents rem
+  let parts : List Bytes := comps.filter fun p => !p.isEmpty && p != Path.dot
   if parts.any (· == Path.dotdot) then
     (Sys.closeAll [cur, handle] : Prog Unit)
-    throw (.os ENOENT)
+    throw (Err.os ENOENT)
+  else
   let r ← M.try' (mkdirLoop perm cur parts)
   (Sys.close handle : Prog Unit)
   M.ofExcept r
